@@ -9,3 +9,4 @@ for i in $(seq -w 1 20); do
   echo "C$i rc=$rc $((t1-t0))s $(echo "$out" | grep -c KNOWN-FINDING) KF | $(echo "$out" | grep -v KNOWN | tail -1 | cut -c1-140)"
   [ $rc -ne 0 ] && echo "$out" | egrep "VIOL|kind=|HARNESS" | head -4 | cut -c1-300
 done
+exit 0
